@@ -117,6 +117,19 @@ func newC11Fix(scheme string, capacity uint) *c11Fix {
 	ver("sig{1,2}(m0)", comb)
 	ver("sig{1,2}(m0)-labelled-{1,3}", relabelSet(scheme, []hotstuff.QuorumSignature{s1, s2}, comb, []hotstuff.ID{1, 3}))
 	ver("sig{1,2}(m0)-labelled-{2,1}", relabelSet(scheme, []hotstuff.QuorumSignature{s1, s2}, comb, []hotstuff.ID{2, 1}))
+	// inputs crafted against an ambiguous boundary between the message and the signer list in the
+	// cache key: the same bytes with the lowest signer labels moved into the message
+	{
+		m01 := append(append([]byte(nil), msgs[0]...), hotstuff.ID(1).ToBytes()...)
+		m012 := append(append([]byte(nil), m01...), hotstuff.ID(2).ToBytes()...)
+		only2 := relabelSet(scheme, []hotstuff.QuorumSignature{s2}, comb, []hotstuff.ID{2})
+		if scheme != crypto.NameBLS12 {
+			// same signature bytes as comb, one label: entries carry both raw signatures under label 2
+			only2 = relabelSet(scheme, []hotstuff.QuorumSignature{c.Combine(s1, s2)}, comb, []hotstuff.ID{2})
+		}
+		add("verify(sig{1,2}(m0)-labelled-{2}, m0|id1)", func(a *cert.Authority, _ *c11Sys) error { return a.Verify(only2, m01) })
+		add("verify(sig{1,2}(m0)-labelled-{2}, m0|id1|id2)", func(a *cert.Authority, _ *c11Sys) error { return a.Verify(only2, m012) })
+	}
 	if scheme == crypto.NameBLS12 {
 		ver("sig{1,2}(m0)-labelled-{1,2,3}", relabelSet(scheme, nil, comb, []hotstuff.ID{1, 2, 3}))
 		ver("sig{1,2}(m0)-labelled-{1}", relabelSet(scheme, nil, comb, []hotstuff.ID{1}))
